@@ -33,10 +33,28 @@ fn main() {
         "C21" => c21::run(seed, n, replay, &mut out),
         "C15" | "statedb" => c15::run(seed, n, replay, &mut out),
         "C19" | "prestate" => c19::run(seed, n, replay, &mut out),
+        "C10" | "static" => c10::run(seed, n, replay, &mut out),
         "bundle" => bundle::run(seed, n, replay, &mut out),
         "util" => cutil::run(seed, n, replay, &mut out),
         "C25" => c25::run(seed, n, replay, &mut out),
         "C01" | "evm" => c01::run(seed, n, replay, &mut out),
+        "C31" => c31::run(seed, n, replay, &mut out),
+        "C02" => c02::run(seed, n, replay, &mut out),
+        "C29" | "C30" => c29::run(seed, n, replay, &mut out, a[1].as_str()),
+        "C22" | "hcfg" | "hcfg-optimism" => c22::run(seed, n, replay, &mut out),
+        "C07" | "frame" => c07::run(seed, n, replay, &mut out),
+        "C08ops" => c08::run_ops(seed, n, replay, &mut out),
+        "C08tx" => c08::run_tx(seed, n, replay, &mut out),
+        "C09" | "txgas" => c09::run(seed, n, replay, &mut out),
+        #[cfg(feature = "optimism")]
+        "C33" => c33::run(seed, n, replay, &mut out),
+        #[cfg(feature = "optimism")]
+        "opfee" => c33::run_opfee(seed, n, replay, &mut out),
+        #[cfg(feature = "optimism")]
+        "optx" => c33::run_optx(seed, n, replay, &mut out),
+        "C34j" => c34::run(seed, n, replay, &mut out),
+        "C34tx" => c34tx::run(seed, n, replay, &mut out),
+        "C28" | "inspwrap" => c28::run(seed, n, replay, &mut out),
         other => {
             eprintln!("unknown component {other}");
             std::process::exit(2);
